@@ -49,12 +49,63 @@ class UFWcs:
         return [[SN(Vx(a, d) + origin), SN(Vy(a, d) + origin)]]
 
 
+def h_two_helpers(wh):
+    """two images in one process with the same reference pixel / pixel scale / beam but different pointings:
+    each helper answers from its OWN WCS (results depend on nothing else)"""
+    Wra2 = z3.Function('Wra2', R2, R2, R2)
+    Wdec2 = z3.Function('Wdec2', R2, R2, R2)
+    Vx2 = z3.Function('Vx2', R2, R2, R2)
+    Vy2 = z3.Function('Vy2', R2, R2, R2)
+
+    class UF2(UFWcs):
+        def all_pix2world(self, pix, origin, ra_dec_order=False):
+            (X, Y), = pix
+            x0, y0 = core._toreal(core.lift(X)) - origin, core._toreal(core.lift(Y)) - origin
+            return [[SN(Wra2(x0, y0)), SN(Wdec2(x0, y0))]]
+
+        def all_world2pix(self, pos, origin, ra_dec_order=False):
+            (ra, dec), = pos
+            a, d = core._toreal(core.lift(ra)), core._toreal(core.lift(dec))
+            return [[SN(Vx2(a, d) + origin), SN(Vy2(a, d) + origin)]]
+
+    def h(c):
+        helpers = []
+        for w in (UFWcs(), UF2()):
+            hp_ = wh.WCSHelper.__new__(wh.WCSHelper)
+            hp_.wcs = w
+            hp_.ra_dec_order = True
+            hp_.refpix = (100.0, 80.0)
+            hp_.pixscale = (-0.001, 0.001)
+            hp_.beam = None
+            hp_.psf_file = None
+            hp_._psf_a = hp_._psf_b = hp_._psf_theta = 1.0
+            helpers.append(hp_)
+        ra, dec = real('ra'), real('dec')
+        p1 = helpers[0].sky2pix((ra, dec))
+        p2 = helpers[1].sky2pix((ra, dec))
+        c.oblige('two-helpers:each helper converts with its own WCS (sky2pix)', z3.And(core.lift(p1[0]) == Vy(ra.e, dec.e) + 1, core.lift(p1[1]) == Vx(ra.e, dec.e) + 1,
+                                                                                    core.lift(p2[0]) == Vy2(ra.e, dec.e) + 1, core.lift(p2[1]) == Vx2(ra.e, dec.e) + 1))
+        r, cc = real('row'), real('col')
+        s1 = helpers[0].pix2sky((r, cc))
+        s2 = helpers[1].pix2sky((r, cc))
+        c.oblige('two-helpers:each helper converts with its own WCS (pix2sky)', z3.And(core.lift(s1[0]) == Wra(cc.e - 1, r.e - 1), core.lift(s2[0]) == Wra2(cc.e - 1, r.e - 1),
+                                                                                    core.lift(s1[1]) == Wdec(cc.e - 1, r.e - 1), core.lift(s2[1]) == Wdec2(cc.e - 1, r.e - 1)))
+        q1 = helpers[0].sky2pix((ra, dec))
+        c.oblige('two-helpers:repeating a conversion gives the same answer', z3.And(core.lift(q1[0]) == core.lift(p1[0]), core.lift(q1[1]) == core.lift(p1[1])))
+        return dict()
+    return h
+
+
 def h_points(wh):
     def h(c):
         helper = wh.WCSHelper.__new__(wh.WCSHelper)
         w = UFWcs()
         helper.wcs = w
         helper.ra_dec_order = True
+        helper.refpix = (100.0, 80.0)
+        helper.pixscale = (-0.001, 0.001)
+        helper.beam = None
+        helper.psf_file = None
         r, cc = real('row'), real('col')
         sky = helper.pix2sky((r, cc))
         # FITS convention: (row, col) 1-based <-> W_fits(x=col, y=row) = W_0(col-1, row-1)
@@ -222,8 +273,9 @@ def real_oracle(seed=0, n=40):
     wh = loader.real('wcs_helpers')
     rng = random.Random(seed)
     worst = dict()
-    for _ in range(n):
+    for it in range(n):
         proj = rng.choice(['SIN', 'TAN', 'ZEA', 'ARC', 'STG'])
+        extreme = it < 3          # the corner of the quantifier: 1"/pixel, RA near the wrap, |dec| 80-85, 1-2 pixel ellipses
         hdr = fits.Header()
         hdr['NAXIS'] = 2
         hdr['NAXIS1'], hdr['NAXIS2'] = 200, 160
@@ -231,6 +283,9 @@ def real_oracle(seed=0, n=40):
         hdr['CRVAL1'], hdr['CRVAL2'] = rng.uniform(0, 360), rng.uniform(-80, 80)
         hdr['CRPIX1'], hdr['CRPIX2'] = 100.0, 80.0
         scale = rng.uniform(2, 30) / 3600
+        if extreme:
+            hdr['CRVAL1'], hdr['CRVAL2'] = (350.0, 359.5, 10.0)[it], (80.0, -84.0, 85.0)[it]
+            scale = 1.0 / 3600
         hdr['CDELT1'], hdr['CDELT2'] = -scale, scale
         hdr['BMAJ'], hdr['BMIN'], hdr['BPA'] = 4 * scale, 3 * scale, 20.0
         helper = wh.WCSHelper.from_header(hdr)
@@ -244,6 +299,8 @@ def real_oracle(seed=0, n=40):
         if abs(back[0] - r0) > 1e-6 or abs(back[1] - c0) > 1e-6:
             return True, 'point-roundtrip', 'sky2pix(pix2sky(p)) = %s for p = (%r, %r) [%s]' % (back, r0, c0, proj)
         sx, sy, th = rng.uniform(2, 12), rng.uniform(1, 2), rng.uniform(-179, 180)
+        if extreme:
+            sx, sy = rng.uniform(1.5, 2.5), rng.uniform(1.0, 1.4)
         sy = min(sy * 1.0, sx)
         _, _, a, b, pa = helper.pix2sky_ellipse((r0, c0), sx, sy, th)
         x3, y3, sx3, sy3, th3 = helper.sky2pix_ellipse((ra, dec), a, b, pa)
@@ -266,6 +323,31 @@ def real_oracle(seed=0, n=40):
     return False, None, None
 
 
+def two_images_oracle():
+    """two real helpers with identical CRPIX/CDELT/beam but different pointing centres, used alternately in one process"""
+    from astropy.io import fits
+    from astropy.wcs import WCS
+    wh = loader.real('wcs_helpers')
+    hs = []
+    for crval in ((30.0, -15.0), (31.0, -15.5)):
+        hdr = fits.Header()
+        hdr['NAXIS'] = 2
+        hdr['NAXIS1'], hdr['NAXIS2'] = 200, 160
+        hdr['CTYPE1'], hdr['CTYPE2'] = 'RA---SIN', 'DEC--SIN'
+        hdr['CRVAL1'], hdr['CRVAL2'] = crval
+        hdr['CRPIX1'], hdr['CRPIX2'] = 100.0, 80.0
+        hdr['CDELT1'], hdr['CDELT2'] = -0.002, 0.002
+        hdr['BMAJ'], hdr['BMIN'], hdr['BPA'] = 0.008, 0.006, 20.0
+        hs.append((wh.WCSHelper.from_header(hdr), WCS(hdr, naxis=2)))
+    for pos in ((30.4, -15.2), (30.9, -15.4)):
+        for helper, w in hs + hs[::-1]:
+            got = helper.sky2pix(pos)
+            ref = w.all_world2pix([pos], 1)[0]
+            if abs(got[0] - ref[1]) > 1e-6 or abs(got[1] - ref[0]) > 1e-6:
+                return True, 'cross-image-state', 'sky2pix%s = %s but this image\'s WCS gives (row, col) = (%.4f, %.4f) (two images with equal CRPIX/CDELT in one process)' % (pos, list(got), ref[1], ref[0])
+    return False, None, None
+
+
 def run(rep):
     wh = sym_wh()
     rep.assume('floats as reals', 'real wcs_helpers source as a private package copy')
@@ -274,6 +356,9 @@ def run(rep):
     st, res = explore(h_points(wh))
     rep.stats(st)
     handle(rep, res, 'K-points')
+    st, res = explore(h_two_helpers(wh))
+    rep.stats(st)
+    handle(rep, res, 'K-points', two=True)
     rep.end_kernel()
     rep.kernel('K-vectors', functions=[F + ':WCSHelper.pix2sky_vec', F + ':WCSHelper.sky2pix_vec', F + ':WCSHelper.pix2sky_ellipse', F + ':WCSHelper.sky2pix_ellipse',
                                        F + ':WCSHelper.get_psf_sky2sky', F + ':WCSHelper.get_psf_sky2pix', F + ':WCSHelper.get_psf_pix2pix', F + ':WCSHelper.get_beamarea_pix'],
@@ -286,25 +371,32 @@ def run(rep):
         rep.stats(st)
         handle(rep, res, 'K-vectors')
     rep.end_kernel()
+    bad, cls, detail = two_images_oracle()
+    rep.validated_runs(1)
+    if bad:
+        rep.finding('C16/K-points/%s' % cls, dict(seed=rep.seed, two=True), detail, kernel='K-points')
     bad, cls, detail = real_oracle(rep.seed)
     rep.validated_runs(40)
     if bad:
         rep.finding('C16/K-vectors/%s' % cls if 'roundtrip' in cls or cls in ('ellipse-length', 'position-angle') else 'C16/K-points/%s' % cls, dict(seed=rep.seed), detail, kernel='K-vectors')
 
 
-def handle(rep, res, kname):
+def handle(rep, res, kname, two=False):
     for r in res:
         for ob in r['obligations']:
             rep.count(ob['result'], ob['name'])
             if ob['result'] == 'sat':
-                bad, cls, detail = real_oracle(11, 60)
-                rep.finding('C16/%s/%s' % (kname, cls or ob['name']), dict(seed=11, obligation=ob['name']), detail or ob['name'], reproduced=bad)
+                bad, cls, detail = two_images_oracle() if two else real_oracle(11, 60)
+                rep.finding('C16/%s/%s' % (kname, cls or ob['name']), dict(seed=11, obligation=ob['name'], two=two), detail or ob['name'], reproduced=bad)
         if r['status'] != 'ok':
             continue
         rep.sample(dict(kernel=kname, obligations=[(o['name'], o['result'], o.get('normaliser', '')[:40]) for o in r['obligations']][:10]))
 
 
 def replay(w):
+    if w['witness'].get('two'):
+        bad, cls, detail = two_images_oracle()
+        return bad, '%s: %s' % (cls, detail)
     bad, cls, detail = real_oracle(int(w['witness'].get('seed', 11)), 60)
     return bad, '%s: %s' % (cls, detail)
 
